@@ -19,6 +19,7 @@ import PM.StructEdit
 import PM.Structure2
 import Proofs.LevelReplace
 import Proofs.SplitSuccess
+import Proofs.FlatInsertCore
 namespace PM
 
 /-! ### the nest of wrapper nodes -/
@@ -115,21 +116,12 @@ theorem flatInsert_empty (S : Schema) (mid : List Node) (p : Option TypeId)
     flatInsert S mid p [] 0 0 = .ok (some mid) := by
   have hgo : fappend (fappend [] mid) [] = mid := by
     cases mid <;> simp [fappend]
-  cases p with
-  | none => simp [flatInsert, fcut, hgo]
-  | some t =>
-    have hv := hp t rfl
-    simp only [Schema.validContent, Bool.and_eq_true, Dfa.accepts] at hv
-    obtain ⟨hacc, hall⟩ := hv
-    cases hq : (S.dfa t).run 0 (S.types mid) with
-    | none => simp [hq] at hacc
-    | some q =>
-      simp only [hq] at hacc
-      have hall' : (mid.all fun k => (S.nodeType t).allowsMarks k.marks) = true := hall
-      have hcr : S.canReplace t [] 0 0 mid 0 mid.length = some true := by
-        simp [Schema.canReplace, Schema.contentMatchAt, Schema.types, Dfa.run] at hq ⊢
-        simp [hq, hacc, hall']
-      simp [flatInsert, hcr, fcut, hgo]
+  have h1 : fcut ([] : List Node) 0 0 = .ok [] := by simp [fcut]
+  have h2 : fcut ([] : List Node) 0 (fsize ([] : List Node)) = .ok [] := by simp [fcut]
+  have := flatInsert_of_cuts (S := S) (ins := mid) (parent := p) (idx := 0) h1 h2
+    (by intro t ht; rw [hgo]; exact hp t ht)
+  rw [hgo] at this
+  exact this
 
 /-- **the insertion descends through the nest to the innermost wrapper** -/
 theorem insertInto_wrapNest (S : Schema) (mid : List Node) : ∀ (as : List (TypeId × Attrs)) (p : Option TypeId),
@@ -156,7 +148,8 @@ theorem insertAt_wrapNest (S : Schema) (mid : List Node) (as : List (TypeId × A
     rw [innerParent_last as none w hlast] at ht
     simp only [Option.some.injEq] at ht
     subst ht; exact hv)
-  simp only [Slice.insertAt, Nat.add_zero, insertInto_wrapNest S mid as none hf]
+  rw [insertAt_of_le (by simp only [Slice.size, fsize_wrapNest, fsize_nil]; omega)]
+  simp only [Slice.insertAtIn, Nat.add_zero, insertInto_wrapNest S mid as none hf]
 
 /-! ### the filled nest is a valid payload -/
 
